@@ -102,7 +102,7 @@ def analyse(src, loader, out_path, full):
   res = {}
   t0 = time.time()
   opts = config.Options.create("prog.py", python_version=(3, 12), module_name="prog",
-                               output=out_path, pickle_output=True)
+                               output=out_path, pickle_output=True, typeshed=False)
   if loader is None:
     loader = load_pytd.create_loader(opts)
   _captured.clear()
